@@ -298,6 +298,30 @@ def cli_case(arg):
                 if k == 3:
                     rr = rr + rr[:2]
                 compare("root-order:%d" % k, g0, a=argv + rr, expect=baser)
+        if idx % 4 == 2:
+            # many ROOT arguments, each the only way to its own commit, whose rev-parse children are held back and then answer
+            # together: no root may get lost, whatever the schedule
+            mr = G.Model()
+            uniq = [G.Commit(G.Tree([G.Entry(G.FILE, b"u%d" % j, G.Blob(b"unique %d\n" % j))]), [], cts=1400000000 + j, msg=b"u%d\n" % j)
+                    for j in range(64)]
+            mr.noise = uniq
+            mr.refs["refs/heads/keep"] = uniq[0]
+            gm = G.write_model(mr, os.path.join(d, "manyroots"))
+            many = [c.oid for c in uniq]
+            for k in range(4):
+                rng.shuffle(many)
+                pdir = os.path.join(d, "rootburst%d" % k)
+                plan = R.make_plan(pdir, [{"sig": "rev-parse --verify", "ord": -1, "mode": "delay", "pre_ms": 25, "max_ms": 40}])
+                rm = R.sizer(sz, gm, argv + many, shimdir=shimdir, plan=plan, tmpdir=d, env={"GOMAXPROCS": ["16", "8", "4", "2"][k]}, timeout=120)
+                out["evals"] += 1
+                shutil.rmtree(pdir, ignore_errors=True)
+                if rm.rc != 0 or rm.timed_out:
+                    out["viol"].append(("run-failed/many-roots", {"nroots": len(many), "rc": rm.rc, "stderr": rm.err[-300:].decode("utf-8", "replace")}))
+                    continue
+                jm, _ = P.parse_json(rm.out)
+                got = [(jm or {}).get(k_) for k_ in ("unique_commit_count", "unique_tree_count", "unique_blob_count")]
+                if got != [64, 64, 64]:
+                    out["viol"].append(("numbers-differ/many-roots-resolved-at-the-same-time", {"nroots": 64, "commits_trees_blobs": got}))
         # a child that dies in the tail of its output (where the tag objects are): every root order must end in an error or
         # in the same numbers, never in numbers that depend on the order
         total = sum(len("%s %s %d\n" % (o.oid, o.kind, o.size)) + o.size + 1 for o in ex.reach.values() if o.kind != "blob")
